@@ -199,6 +199,10 @@ pub fn run<T: HS>(cfg: &Cfg, out: &mut Out<T>) {
         out.fact("C04.successful_result_has_state", resid.is_some() && coeff.is_some(), "Ok without residuals/coefficients".into());
     }
     out.fact("C09.presence_consistent", resid.is_some() == coeff.is_some(), "residuals and coefficients: only one of them present".into());
+    if !hit {
+        // "in both cases hands back the final problem": a model that never failed leaves a problem with its state, Ok or Err
+        out.fact("C04.returns_the_final_problem_with_its_state", resid.is_some() && coeff.is_some(), format!("the model never failed, fit returned {} ({term_txt}) but the returned problem has no residuals/coefficients", if ok { "Ok" } else { "Err" }));
+    }
     if let (Some(r), Some(c)) = (&resid, &coeff) {
         // specification at alpha_hat (one basis function: closed form of the weighted least-squares problem)
         let phi = spec_model.phi_at(&alpha_hat);
@@ -248,6 +252,478 @@ pub fn run<T: HS>(cfg: &Cfg, out: &mut Out<T>) {
         if fail_at.is_none() {
             // the optimizer's objective is computed from the residual vector it was handed: its elements are opaque here
             for i in 0..n {
+                out.cut_for("C04.objective_is_half_squared_norm", r[i]);
+            }
+            out.eq("C04.objective_is_half_squared_norm", "objective".into(), fr.minimization_report.objective_function, obj * half);
+            if let Some(o0) = obj0 {
+                let (of, o0f) = (fr.minimization_report.objective_function.peek(), o0.peek());
+                out.fact("C04.objective_not_larger_than_initial.concrete", of <= o0f * (1.0 + 1e-9) + 1e-300, format!("objective {of} > objective at the initial guess {o0f}"));
+                out.le("C04.objective_not_larger_than_initial", "objective <= objective(alpha0)".into(), fr.minimization_report.objective_function, if twin { o0 * half * half * half } else { o0 });
+            }
+        }
+    }
+}
+
+/// outcome of one complete fit, for relational comparison
+pub struct FitOut<T: HS> {
+    pub ok: bool,
+    pub term: String,
+    pub evaluations: usize,
+    pub objective: T,
+    pub alpha: DVector<T>,
+    pub coeff: Option<DMatrix<T>>,
+    pub resid: Option<DVector<T>>,
+    pub model_calls: usize,
+}
+
+struct FitInputs<T: HS> {
+    n: usize,
+    s: usize,
+    p: usize,
+    w: Option<DVector<T>>,
+    y: DMatrix<T>,
+    a: DMatrix<T>,
+    b: Vec<DMatrix<T>>,
+    alpha0: DVector<T>,
+    patience: usize,
+}
+
+fn fit_inputs<T: HS>(cfg: &Cfg) -> FitInputs<T> {
+    let (n, s, p) = (cfg.usize("n", 3), cfg.usize("s", 1), cfg.usize("p", 1));
+    let salt = cfg.usize("salt", 0) * 13;
+    let w = match cfg.str("w", "diag").as_str() {
+        "none" => None,
+        _ => Some(DVector::from_fn(n, |i, _| {
+            let (a, b) = small(i, 1 + salt);
+            T::var(&format!("w{i}"), a, b)
+        })),
+    };
+    let y = DMatrix::from_fn(n, s, |i, j| {
+        let (a, b) = small(i + 5 * j, 2 + salt);
+        T::var(&format!("y{i}_{j}"), a, b)
+    });
+    let a = DMatrix::from_fn(n, 1, |i, j| {
+        let (x, d) = small(i + j, 5 + salt);
+        T::var(&format!("a_{i}_{j}"), x, d)
+    });
+    let b = (0..p)
+        .map(|k| {
+            DMatrix::from_fn(n, 1, |i, j| {
+                let (x, d) = small(i + j + 7 * k, 6 + salt);
+                T::var(&format!("b{k}_{i}_{j}"), x, d)
+            })
+        })
+        .collect();
+    let alpha0 = DVector::from_fn(p, |k, _| {
+        let (x, d) = small(k, 7 + salt);
+        T::var(&format!("alpha0_{k}"), x, d)
+    });
+    FitInputs { n, s, p, w, y, a, b, alpha0, patience: cfg.usize("patience", 2) }
+}
+
+macro_rules! fit_variant {
+    ($name:ident, $ctor:ident, $mrhs:tt) => {
+        fn $name<T: HS>(inp: &FitInputs<T>, col: Option<usize>) -> Option<FitOut<T>> {
+            let calls = Arc::new(AtomicUsize::new(0));
+            let model = AffineModel { params: inp.alpha0.clone(), a: inp.a.clone(), b: inp.b.clone(), calls: calls.clone(), evals: Arc::new(AtomicUsize::new(0)), fail_at: None, persistent: false, failed: Arc::new(AtomicUsize::new(0)) };
+            let ysel = match col {
+                Some(c) => DMatrix::from_fn(inp.n, 1, |i, _| inp.y[(i, c)]),
+                None => inp.y.clone(),
+            };
+            let mut bld = LevMarProblemBuilder::$ctor(model).observations(fit_obs!($mrhs, ysel));
+            if let Some(w) = &inp.w {
+                bld = bld.weights(w.clone());
+            }
+            let problem = bld.build().ok()?;
+            let before = calls.load(Ordering::SeqCst);
+            let solver = LevMarSolver::with_solver(LevenbergMarquardt::new().with_patience(inp.patience));
+            let (ok, fr) = match solver.fit(problem) {
+                Ok(fr) => (true, fr),
+                Err(fr) => (false, fr),
+            };
+            Some(FitOut {
+                ok,
+                term: format!("{:?}", fr.minimization_report.termination),
+                evaluations: fr.minimization_report.number_of_evaluations,
+                objective: fr.minimization_report.objective_function,
+                alpha: fr.nonlinear_parameters(),
+                coeff: fr.linear_coefficients().map(|c| DMatrix::from_iterator(c.nrows(), c.ncols(), c.iter().cloned())),
+                resid: fr.problem.residuals(),
+                model_calls: calls.load(Ordering::SeqCst) - before,
+            })
+        }
+    };
+}
+macro_rules! fit_obs {
+    (false, $y:expr) => {
+        DVector::from_iterator($y.nrows(), $y.column(0).iter().cloned())
+    };
+    (true, $y:expr) => {
+        $y
+    };
+}
+fit_variant!(fit_vec_seq, new, false);
+fit_variant!(fit_mrhs_seq, mrhs, true);
+fit_variant!(fit_vec_par, new_parallel, false);
+fit_variant!(fit_mrhs_par, mrhs_parallel, true);
+
+fn compare<T: HS>(out: &mut Out<T>, name: &str, x: &FitOut<T>, y: &FitOut<T>, what: &str) {
+    // generalisation points: the parameters either run arrived at
+    for k in 0..y.alpha.len() {
+        out.cut(y.alpha[k]);
+    }
+    out.fact(&format!("{name}.same_outcome"), x.ok == y.ok && x.term == y.term, format!("{what}: {} {} vs {} {}", x.ok, x.term, y.ok, y.term));
+    out.fact(&format!("{name}.same_evaluations"), x.evaluations == y.evaluations && x.model_calls == y.model_calls, format!("{what}: {} evaluations / {} model calls vs {} / {}", x.evaluations, x.model_calls, y.evaluations, y.model_calls));
+    out.eq(&format!("{name}.same_fit"), format!("{what}: objective"), x.objective, y.objective);
+    for k in 0..x.alpha.len().min(y.alpha.len()) {
+        out.eq(&format!("{name}.same_fit"), format!("{what}: alpha[{k}]"), x.alpha[k], y.alpha[k]);
+    }
+    match (&x.coeff, &y.coeff) {
+        (Some(a), Some(b)) => out.eq_mat(&format!("{name}.same_fit"), &format!("{what}: coefficients"), a, b),
+        (None, None) => {}
+        _ => out.fact(&format!("{name}.same_presence"), false, format!("{what}: coefficients present in one flavour only")),
+    }
+    match (&x.resid, &y.resid) {
+        (Some(a), Some(b)) => out.eq_mat(&format!("{name}.same_fit"), &format!("{what}: residuals"), &vec_to_mat(a), &vec_to_mat(b)),
+        (None, None) => {}
+        _ => out.fact(&format!("{name}.same_presence"), false, format!("{what}: residuals present in one flavour only")),
+    }
+}
+
+/// Scenario `relfit`: complete fits of the same inputs through different flavours, compared as terms.
+///   kind=par   : sequential vs parallel constructor (vector API, or matrix API with S columns)        -> C11
+///   kind=onecol: one-column matrix-API problem vs the vector-API problem                              -> C07
+/// The runs share one term arena: identical computations give identical nodes; anything else goes to the solver with the
+/// decisions of BOTH runs as hypotheses.
+pub fn relfit<T: HS>(cfg: &Cfg, out: &mut Out<T>) {
+    let inp = fit_inputs::<T>(cfg);
+    let kind = cfg.str("kind", "par");
+    let twin = cfg.usize("twin", 0) == 1;
+    match kind.as_str() {
+        "par" => {
+            let vector_api = inp.s == 1 && cfg.usize("mrhs", 0) == 0;
+            let a = if vector_api { fit_vec_seq(&inp, None) } else { fit_mrhs_seq(&inp, None) };
+            // install=1: the parallel fit runs inside a worker of a dedicated pool (a different splitting of the work)
+            let b = if cfg.usize("install", 0) == 1 {
+                let pool = rayon::ThreadPoolBuilder::new().num_threads(cfg.usize("threads", 1).max(1)).build().expect("local rayon pool");
+                pool.install(|| if vector_api { fit_vec_par(&inp, None) } else { fit_mrhs_par(&inp, None) })
+            } else if vector_api {
+                fit_vec_par(&inp, None)
+            } else {
+                fit_mrhs_par(&inp, None)
+            };
+            match (a, b) {
+                (Some(mut a), Some(b)) => {
+                    if twin {
+                        a.alpha[0] = a.alpha[0] + T::ratio(1, 1);
+                    }
+                    compare(out, "C11.fit", &a, &b, "sequential vs parallel")
+                }
+                (None, None) => out.notes.push("both builds failed".into()),
+                _ => out.fact("C11.fit.same_outcome", false, "build succeeded in one flavour only".into()),
+            }
+        }
+        "onecol" => {
+            let (a, b) = (fit_vec_seq(&inp, Some(0)), fit_mrhs_seq(&inp, Some(0)));
+            match (a, b) {
+                (Some(mut a), Some(b)) => {
+                    if twin {
+                        a.alpha[0] = a.alpha[0] + T::ratio(1, 1);
+                    }
+                    compare(out, "C07.fit", &a, &b, "vector API vs one-column matrix API")
+                }
+                (None, None) => out.notes.push("both builds failed".into()),
+                _ => out.fact("C07.fit.same_outcome", false, "build succeeded in one API only".into()),
+            }
+        }
+        _ => panic!("unknown relfit kind"),
+    }
+    let _ = inp.p;
+}
+
+// =================================================================================================================
+// `symfit2`: the optimizer loop with TWO basis functions.  The SVD cannot run on symbolic matrices, and a planted
+// factorisation needs the factors of Phi(alpha) for parameters that are only known when the optimizer asks for them.
+// So the model is DEFINED through its factors:  W Phi(alpha) = Rz(alpha_0) U0 diag(sigma) V(alpha_1)^T  with the rational
+// rotation Rz(k) = [[c,-s,0],[s,c,0],[0,0,1]], c = (1-k^2)/(1+k^2), s = 2k/(1+k^2) (orthogonal for every k), a fixed exact
+// rational frame U0 (3x2) and V(k) the 2x2 rotation of the same form (or a fixed frame when P = 1).  Every `eval` plants the
+// factors for the parameters in effect; the matrix handed to the SVD is proved equal to the planted product (SVD.input).
+// =================================================================================================================
+use crate::scen_core::{check_state, default_eps, Inputs, Observed};
+use crate::stub::{orthogonal, Plant, State, CUR_PLANT, PLANTS, PLANT_PRODUCTS};
+
+fn cs<T: HS>(k: T) -> (T, T) {
+    let one = T::ratio(1, 1);
+    let den = one + k * k;
+    ((one - k * k) / den, (T::ratio(2, 1) * k) / den)
+}
+fn dcs<T: HS>(k: T) -> (T, T) {
+    // d/dk of ((1-k^2)/(1+k^2), 2k/(1+k^2)) = (-4k, 2(1-k^2)) / (1+k^2)^2
+    let one = T::ratio(1, 1);
+    let den = (one + k * k) * (one + k * k);
+    ((T::ratio(-4, 1) * k) / den, (T::ratio(2, 1) * (one - k * k)) / den)
+}
+
+#[derive(Clone)]
+pub struct RotModel<T: HS> {
+    pub params: DVector<T>,
+    pub u0: DMatrix<T>,
+    pub v0: DMatrix<T>,
+    pub sigma: DVector<T>,
+    pub w: DVector<T>,
+    pub calls: Arc<AtomicUsize>,
+    pub evals: Arc<AtomicUsize>,
+    pub fail_at: Option<usize>,
+    pub failed: Arc<AtomicUsize>,
+}
+impl<T: HS> RotModel<T> {
+    fn tick(&self) -> bool {
+        let k = self.calls.fetch_add(1, Ordering::SeqCst);
+        let fail = self.fail_at == Some(k);
+        if fail {
+            self.failed.fetch_add(1, Ordering::SeqCst);
+        }
+        fail
+    }
+    /// rotation in the plane of the first two coordinates (identity on the others)
+    fn rz(n: usize, a: usize, c: T, s: T) -> DMatrix<T> {
+        let (z, o) = (T::ratio(0, 1), T::ratio(1, 1));
+        DMatrix::from_fn(n, n, |i, j| {
+            if (i, j) == (a, a) || (i, j) == (a + 1, a + 1) {
+                c
+            } else if (i, j) == (a, a + 1) {
+                -s
+            } else if (i, j) == (a + 1, a) {
+                s
+            } else if i == j {
+                o
+            } else {
+                z
+            }
+        })
+    }
+    /// its derivative pattern (zero outside the 2x2 block)
+    fn drz(n: usize, a: usize, c: T, s: T) -> DMatrix<T> {
+        let z = T::ratio(0, 1);
+        DMatrix::from_fn(n, n, |i, j| {
+            if (i, j) == (a, a) || (i, j) == (a + 1, a + 1) {
+                c
+            } else if (i, j) == (a, a + 1) {
+                -s
+            } else if (i, j) == (a + 1, a) {
+                s
+            } else {
+                z
+            }
+        })
+    }
+    fn rot2(c: T, s: T) -> DMatrix<T> {
+        DMatrix::from_row_slice(2, 2, &[c, -s, s, c])
+    }
+    /// U at the given parameters: U = R01(alpha_0) R23(alpha_1) U0 (the second rotation needs N >= 4); V is fixed -- a
+    /// parameter that only rotated V would leave range(W Phi) unchanged and give an identically vanishing Jacobian column
+    pub fn u_at(&self, alpha: &DVector<T>, deriv: Option<usize>) -> DMatrix<T> {
+        let n = self.u0.nrows();
+        let mut u = self.u0.clone();
+        for k in (0..alpha.len()).rev() {
+            let (c, s) = if deriv == Some(k) { dcs(alpha[k]) } else { cs(alpha[k]) };
+            let r = if deriv == Some(k) { Self::drz(n, 2 * k, c, s) } else { Self::rz(n, 2 * k, c, s) };
+            u = r * u;
+        }
+        u
+    }
+    pub fn plant_at(&self, alpha: &DVector<T>) -> Plant<T> {
+        Plant { u: self.u_at(alpha, None), sigma: self.sigma.clone(), vt: self.v0.transpose() }
+    }
+    fn unweight(&self, a: DMatrix<T>) -> DMatrix<T> {
+        DMatrix::from_fn(a.nrows(), a.ncols(), |i, j| a[(i, j)] / self.w[i])
+    }
+    pub fn phi_at(&self, alpha: &DVector<T>) -> DMatrix<T> {
+        self.unweight(self.plant_at(alpha).product())
+    }
+    pub fn deriv_at(&self, alpha: &DVector<T>, k: usize) -> DMatrix<T> {
+        let sig = DMatrix::from_diagonal(&self.sigma);
+        self.unweight(self.u_at(alpha, Some(k)) * sig * self.v0.transpose())
+    }
+    fn plant_now(&self) {
+        let pl = self.plant_at(&self.params);
+        let conv = |v: &[T]| -> Option<Vec<verif_sym::Sym>> { v.iter().map(|x| x.as_sym()).collect() };
+        let entry = (|| Some((conv(pl.u.as_slice())?, conv(pl.sigma.as_slice())?, conv(pl.vt.as_slice())?)))();
+        let a = pl.product();
+        let prod = conv(a.as_slice()).map(|v| (a.nrows(), a.ncols(), v));
+        let mut g = PLANTS.lock().unwrap();
+        let mut pp = PLANT_PRODUCTS.lock().unwrap();
+        g.push(entry);
+        pp.push(prod);
+        *CUR_PLANT.lock().unwrap() = g.len() - 1;
+    }
+}
+impl<T: HS> SeparableNonlinearModel for RotModel<T> {
+    type ScalarType = T;
+    type Error = AffErr;
+    fn parameter_count(&self) -> usize {
+        self.params.len()
+    }
+    fn base_function_count(&self) -> usize {
+        2
+    }
+    fn output_len(&self) -> usize {
+        self.u0.nrows()
+    }
+    fn set_params(&mut self, p: OVector<T, Dyn>) -> Result<(), AffErr> {
+        if self.tick() {
+            return Err(AffErr("set_params"));
+        }
+        self.params = p;
+        Ok(())
+    }
+    fn params(&self) -> OVector<T, Dyn> {
+        self.params.clone()
+    }
+    fn eval(&self) -> Result<OMatrix<T, Dyn, Dyn>, AffErr> {
+        self.evals.fetch_add(1, Ordering::SeqCst);
+        if self.tick() {
+            return Err(AffErr("eval"));
+        }
+        self.plant_now();
+        Ok(self.phi_at(&self.params))
+    }
+    fn eval_partial_deriv(&self, k: usize) -> Result<OMatrix<T, Dyn, Dyn>, AffErr> {
+        if self.tick() {
+            return Err(AffErr("deriv"));
+        }
+        Ok(self.deriv_at(&self.params, k))
+    }
+}
+
+pub fn run2<T: HS>(cfg: &Cfg, out: &mut Out<T>) {
+    let p = cfg.usize("p", 1).clamp(1, 2);
+    let patience = cfg.usize("patience", 1);
+    let fail_at = cfg.opt_usize("fail_at");
+    let twin = cfg.usize("twin", 0) == 1;
+    let salt = cfg.usize("salt", 0) * 13;
+    let (useed, vseed) = (cfg.usize("useed", 2) as u64, cfg.usize("vseed", 5) as u64);
+    // N >= 2P (one coordinate plane per parameter) and N - M >= P: otherwise the Jacobian (whose columns lie in the orthogonal complement of range(W Phi)) is rank deficient
+    let (n, m) = (cfg.usize("n", 2 * p + 1).clamp(2 * p + 1, 6), 2usize);
+    let zero = T::ratio(0, 1);
+    let half = T::ratio(1, 2);
+    let pre = if fail_at.is_some() { "C09" } else { "C04" };
+    let w = DVector::from_fn(n, |i, _| {
+        if cfg.str("w", "diag") == "none" {
+            T::ratio(1, 1)
+        } else {
+            let (a, b) = small(i, 1 + salt);
+            T::var(&format!("w{i}"), a, b)
+        }
+    });
+    for i in 0..n {
+        if cfg.str("w", "diag") != "none" {
+            out.assume(w[i], "!=", zero);
+        }
+    }
+    let y = DMatrix::from_fn(n, 1, |i, _| {
+        let (a, b) = small(i, 2 + salt);
+        T::var(&format!("y{i}_0"), a, b)
+    });
+    let sigma = DVector::from_fn(2, |j, _| T::var(&format!("s0_{j}"), (3 + 2 * j) as i64, 1 + j as i64));
+    for j in 0..2 {
+        out.assume(sigma[j], ">=", zero);
+    }
+    let alpha0 = DVector::from_fn(p, |k, _| {
+        let (x, d) = small(k, 7 + salt);
+        T::var(&format!("alpha0_{k}"), x, 4 * d)
+    });
+    let u0 = orthogonal::<T>(n, useed).columns(0, 2).into_owned();
+    let v0 = orthogonal::<T>(2, vseed);
+    PLANTS.lock().unwrap().clear();
+    PLANT_PRODUCTS.lock().unwrap().clear();
+    let calls = Arc::new(AtomicUsize::new(0));
+    let evals = Arc::new(AtomicUsize::new(0));
+    let failed = Arc::new(AtomicUsize::new(0));
+    let model = RotModel { params: alpha0.clone(), u0, v0, sigma: sigma.clone(), w: w.clone(), calls: calls.clone(), evals: evals.clone(), fail_at, failed: failed.clone() };
+    let spec_model = model.clone();
+    let weighted = cfg.str("w", "diag") != "none";
+    let mut bld = LevMarProblemBuilder::new(model).observations(DVector::from_iterator(n, y.iter().cloned()));
+    if weighted {
+        bld = bld.weights(w.clone());
+    }
+    let problem = match bld.build() {
+        Ok(p) => p,
+        Err(e) => {
+            out.fact("C18.build_ok", false, format!("build() failed on consistent inputs: {e:?}"));
+            return;
+        }
+    };
+    let obj0 = problem.residuals().map(|r| {
+        let mut acc = zero;
+        for i in 0..r.nrows() {
+            acc = acc + r[i] * r[i];
+        }
+        acc * half
+    });
+    let evals_before = evals.load(Ordering::SeqCst);
+    let solver = LevMarSolver::with_solver(LevenbergMarquardt::new().with_patience(patience));
+    let (ok, fr) = match solver.fit(problem) {
+        Ok(fr) => (true, fr),
+        Err(fr) => (false, fr),
+    };
+    let term_ok = fr.minimization_report.termination.was_successful();
+    let term_txt = format!("{:?}", fr.minimization_report.termination);
+    out.notes.push(format!("termination {term_txt}, evaluations {}, ok {ok}, svd plants {}", fr.minimization_report.number_of_evaluations, PLANTS.lock().unwrap().len()));
+    out.fact("C04.ok_iff_successful", ok == term_ok, format!("fit returned {} with {term_txt}", if ok { "Ok" } else { "Err" }));
+    let budget = patience * (p + 1);
+    out.fact("C04.evaluations_within_budget", fr.minimization_report.number_of_evaluations <= budget, format!("{} evaluations reported, budget {budget}", fr.minimization_report.number_of_evaluations));
+    let model_evals = evals.load(Ordering::SeqCst) - evals_before;
+    out.fact("C04.model_evaluations_within_budget", model_evals <= budget + 1, format!("{model_evals} model evaluations during fit, budget {budget} (+1)"));
+    let hit = failed.load(Ordering::SeqCst) > 0;
+    if hit {
+        out.fact("C09.failure_gives_err", !ok, format!("fit returned Ok although a model call failed ({term_txt})"));
+    }
+    let alpha_hat = fr.nonlinear_parameters();
+    for k in 0..p {
+        out.cut(alpha_hat[k]);
+    }
+    let obs = Observed {
+        coeff: fr.linear_coefficients().map(|c| DMatrix::from_iterator(c.nrows(), c.ncols(), c.iter().cloned())),
+        resid: fr.problem.residuals(),
+        jac: fr.problem.jacobian(),
+        wdata: {
+            let d = fr.problem.weighted_data();
+            DMatrix::from_iterator(d.nrows(), d.ncols(), d.iter().cloned())
+        },
+        params: fr.problem.params(),
+    };
+    out.fact("C09.presence_consistent", obs.resid.is_some() == obs.coeff.is_some(), "residuals and coefficients: only one of them present".into());
+    if !hit {
+        out.fact("C04.returns_the_final_problem_with_its_state", obs.resid.is_some() && obs.coeff.is_some(), format!("the model never failed, fit returned {} ({term_txt}) but the returned problem has no residuals/coefficients", if ok { "Ok" } else { "Err" }));
+    }
+    for k in 0..p {
+        out.eq(&format!("{pre}.params_are_reported_alpha"), format!("alpha[{k}]"), obs.params[k], alpha_hat[k]);
+    }
+    if obs.resid.is_none() {
+        return;
+    }
+    // the specification of the returned state: the obligations of the `core` scenario (C01 closed form for every rank case,
+    // C02 residuals / weighted data, C03 Kaufman Jacobian) with the factors planted for alpha-hat
+    let inp = Inputs {
+        n,
+        m,
+        s: 1,
+        p,
+        w: if weighted { Some(w.clone()) } else { None },
+        y: y.clone(),
+        eps: None,
+        plants: vec![Some(spec_model.plant_at(&alpha_hat))],
+        states: vec![State { phi: spec_model.phi_at(&alpha_hat), d: (0..p).map(|k| spec_model.deriv_at(&alpha_hat, k)).collect(), eval_fails: false, deriv_fails: None }],
+        alphas: vec![alpha_hat.clone()],
+        twin,
+    };
+    check_state("", &inp, 0, default_eps::<T>(), &obs, out);
+    if fail_at.is_none() {
+        if let Some(r) = &obs.resid {
+            let mut obj = zero;
+            for i in 0..r.len() {
+                obj = obj + r[i] * r[i];
                 out.cut_for("C04.objective_is_half_squared_norm", r[i]);
             }
             out.eq("C04.objective_is_half_squared_norm", "objective".into(), fr.minimization_report.objective_function, obj * half);
